@@ -148,3 +148,11 @@ Theorem returned_record_is_a_reported_record : forall need_merge ttl ops pid r,
   Forall wf_op ops -> visible (run true need_merge ttl ops init) pid = Some r -> reported_in ops pid r.
 Proof. exact visible_record_was_reported. Qed.
 Print Assumptions returned_record_is_a_reported_record.
+
+(* The merge policy the case checkers run the model with ([real_need_merge], also used by
+   C07's example) is pcache.needMerge as astgen translates it from the Go source on every
+   run: a change of the threshold in the source breaks this obligation. *)
+Theorem need_merge_is_source : forall u m,
+  real_need_merge u m = Gen.Gen_Funcs.pcache_needMerge (Z.of_nat u) (Z.of_nat m).
+Proof. exact need_merge_is_source_l. Qed.
+Print Assumptions need_merge_is_source.
